@@ -426,7 +426,7 @@ def r01e(ctx):
 
 # parent classes whose only expression operand that can be `self` is the first one
 UNARY_IN_FRAME = {
-    "Projection", "Index", "Repartition", "Head", "Tail", "Filter", "Len", "Lengths",
+    "Projection", "Index", "Repartition", "Head", "Tail", "Len", "Lengths",
     "Unique", "DropDuplicates", "Sum", "Prod", "Max", "Any", "All", "Min", "Size", "NBytes", "Mean", "Count", "Mode",
     "NLargest", "NSmallest", "ValueCounts", "MemoryUsage",
 }
